@@ -77,7 +77,7 @@ func (c *MustacheTokenizer) ReadNextToken() *tokenizers.Token {
 		c.LastTokenType = tokenizers.Symbol
 	}
 	// Switch to quote when '{{' or '{{{' symbols found
-	if token != nil && (token.Value() == "}}" || token.Value() == "}}}") {
+	if token != nil && token.Type() == tokenizers.Symbol && (token.Value() == "}}" || token.Value() == "}}}") {
 		c.special = true
 	}
 	return token
